@@ -87,6 +87,7 @@ func runC09(c *Ctx) {
 		"C09.3 every per-type filter asks, for the element type it filters, the authorizer questions frozen in rules/c09_filter_questions.json, on a name field of the element (not a container key), and siblings filtering the same element type agree",
 		"C09.4 in-place removal is index-safe (splice followed by an index decrement), sets the removed flag, and the ResultsFilteredByACLs flag is never overwritten inside a loop or by a later assignment",
 		"C09.4.copy a filter applied to a local copy of a slice stores the filtered copy back into the reply",
+		"C09.7 the filter never assigns a field of an object of a stored-row type that came in with the reply (redaction works on a copy and swaps the pointer): replies carry pointers to the rows held by the state store",
 		"C09.5 an identity obtained from a token is checked for expiry before policies, roles or an authorizer are derived from it; the server-local lookup returns a token only when it is not expired",
 		"C09.6 query metadata masks the filtered flag for anonymous callers",
 	}
@@ -474,6 +475,7 @@ func checkSplices(c *Ctx) {
 	r.Floor("C09.4.splice", 10)
 	_ = n
 	checkFilteredCopyWrittenBack(c)
+	checkFilterDoesNotWriteRows(c)
 }
 
 // C09.4.copy: a filter applied to the address of a local copy (nodes :=
@@ -777,4 +779,85 @@ func checkAnonymousMask(c *Ctx) {
 	}
 	r.Floor("C09.6", 1)
 	_ = sort.Strings
+}
+
+// rowTypeNames: named struct types of the objects inserted into memdb by package state.
+func rowTypeNames(p *core.Program) map[string]bool {
+	return p.Memo("rowTypeNames", func() any {
+		out := map[string]bool{}
+		sites, _ := stateWriteSites(p)
+		for _, s := range sites {
+			if s.op.Op != "Insert" || s.op.Obj == nil {
+				continue
+			}
+			v := s.op.Obj
+			if mi, ok := v.(*ssa.MakeInterface); ok {
+				v = mi.X
+			}
+			if nt := core.NamedOf(v.Type()); nt != nil {
+				if _, isStruct := nt.Underlying().(*types.Struct); isStruct {
+					out[nt.Obj().Name()] = true
+				}
+			}
+		}
+		return out
+	}).(map[string]bool)
+}
+
+// C09.7
+func checkFilterDoesNotWriteRows(c *Ctx) {
+	p, r := c.P, c.R
+	rows := rowTypeNames(p)
+	r.Analysed["row_types"] = len(rows)
+	n, nFns := 0, 0
+	for _, f := range p.SrcFuncs(aclfilterPkg) {
+		nFns++
+		for _, b := range f.Blocks {
+			for _, in := range b.Instrs {
+				st, ok := in.(*ssa.Store)
+				if !ok {
+					continue
+				}
+				fa, ok := st.Addr.(*ssa.FieldAddr)
+				if !ok {
+					continue
+				}
+				if _, isAlloc := fa.X.(*ssa.Alloc); isAlloc {
+					continue // a local copy
+				}
+				nt := core.NamedOf(fa.X.Type())
+				if nt == nil || !rows[nt.Obj().Name()] {
+					continue
+				}
+				// fresh copies: the base is the result of a Clone/copy call
+				fresh := true
+				for _, leaf := range core.Leaves(fa.X, core.SliceOpts{StopAt: func(v ssa.Value) bool {
+					call, ok := v.(*ssa.Call)
+					return ok && (strings.Contains(core.MethodNameOf(&call.Call), "Clone") || strings.Contains(core.MethodNameOf(&call.Call), "Copy"))
+				}}) {
+					switch x := leaf.(type) {
+					case *ssa.Call:
+						if !(strings.Contains(core.MethodNameOf(&x.Call), "Clone") || strings.Contains(core.MethodNameOf(&x.Call), "Copy")) {
+							fresh = false
+						}
+					case *ssa.Alloc:
+					case *ssa.Const:
+					default:
+						fresh = false
+					}
+				}
+				if fresh {
+					continue
+				}
+				n++
+				r.Violate("C09.7", core.FuncName(f)+"/"+nt.Obj().Name()+"."+core.FieldObj(fa).Name(), p.Pos(st.Pos()), fmt.Sprintf("the filter assigns field %s of a %s that came in with the reply: replies hold pointers to the rows of the state store, so this redaction (or edit) changes the stored object for every later reader, including callers with full permissions", core.FieldObj(fa).Name(), nt.Obj().Name()))
+			}
+		}
+	}
+	if n == 0 {
+		r.Hold("C09.7", "aclfilter", "", fmt.Sprintf("%d functions, %d stored-row types: no field of an incoming row object is assigned", nFns, len(rows)))
+	}
+	if len(rows) < 30 {
+		r.MissingInstance("C09.7", "<row-types>", fmt.Sprintf("only %d row types found", len(rows)))
+	}
 }
